@@ -250,15 +250,16 @@ CHECKS = {
         'scalar type (hence also the Float instance that is run): the three station kernels equal the hand-written loop-free specification (Model/PyxSpec: dot product with the C strides, '
         'accumulate-until--inf), the four combined station kernels equal the clean three-count specification for every ordering of the station counts, all seven c_*_ln_pdf wrappers fill cell '
         'v*wmax+w with it (un-marginalised) or with the in-kernel log-sum-exp over location samples (marginalised), the relative-amplitude loops are the fold of combine_mu/combine_s over the '
-        'per-station estimates (over R: MultiEvent.combineMu, the C15 model), and the binning kernel equals Scatangle.bin, the C18 model (over R, positive weights). 19 theorems over the reals state that the scalar kernels equal the '
+        'per-station estimates (over R: MultiEvent.combineMu, the C15 model), the binning kernel equals Scatangle.bin, the C18 model (over R, positive weights), ln_prod / ln_combine / ln_multipliers cells and the 1-D reductions have loop-free forms '
+        '(normalised output sums to one over R), cN_SDR = model of FP_SDR for all unit normal/slip pairs and csingleSDR_SDR = model of SDR_SDR. 19 theorems over the reals state that the scalar kernels equal the '
         'models of the pure-Python paths: Gaussian pdf/cdf (both modules), manual-polarity and polarity-probability station likelihoods (all amplitudes), the '
         'ratio density for modelled amplitudes of either sign, the inverse-variance step, the per-station scale estimate, proposal ratios (= ratios of the '
         'Python transition densities), prior ratios, the jump density, lune coordinates, Hudson tau-k and u-v, Tape parameters to six-vector. Tie: regenerated '
         'model (theorems re-checked against what the .pyx says now) + evaluation of every translated kernel at Float against the real Python functions: the '
         'array kernels against polarity_ln_pdf / polarity_probability_ln_pdf / amplitude_ratio_ln_pdf and their sums (1-4 stations per type with unequal counts, '
         '1-3 location samples, 1-7 tensors incl. six, marginalised or not), the relative-amplitude loops against relative_amplitude_ratio_ln_pdf / scale_estimator, and the '
-        'binning kernel against parse_scatangle on written files. Found and fixed this way: four defects of the .pyx (KNOWN_FINDINGS fixed: records); no open finding.',
-   note=TB + 'Partial: ln_prod / ln_combine / ln_multipliers and the second result (location-sample buffer) of the marginalised wrappers have a correspondence check only; *_gen variants (in-kernel random generation), relative_amplitude_loop, RNG, OpenMP, memory-view plumbing of the def wrappers and the C compiler are not modelled; out-of-bounds reads are 0 in the model (undefined in C); the translator is trusted; nothing compiled is executed.',
+        'binning kernel against parse_scatangle on written files. Found and fixed this way: five defects of the .pyx (KNOWN_FINDINGS fixed: records); no open finding.',
+   note=TB + 'Partial: the second result (location-sample buffer) of the marginalised wrappers, cMultipleTape_MT6 and SDR_SDR batches have a correspondence check only; *_gen variants (in-kernel random generation), relative_amplitude_loop, RNG, OpenMP, memory-view plumbing of the def wrappers and the C compiler are not modelled; out-of-bounds reads are 0 in the model (undefined in C); the translator is trusted; nothing compiled is executed.',
    technique='source-to-Lean translation of the .pyx kernels (scalar kernels, folds, nested-loop array kernels) + Lean 4 equality proofs for the scalar kernels + differential evaluation against the Python paths',
    design='5/C20'),
 }
